@@ -789,7 +789,7 @@ func init() {
 	nop := func(fr *frame, args []value) value { return nil }
 	for _, n := range []string{"(*sync.Mutex).Lock", "(*sync.Mutex).Unlock", "(*sync.RWMutex).Lock", "(*sync.RWMutex).Unlock",
 		"(*sync.RWMutex).RLock", "(*sync.RWMutex).RUnlock", "(*sync.WaitGroup).Add", "(*sync.WaitGroup).Done", "(*sync.WaitGroup).Wait",
-		"(*sync.Pool).Put", "runtime.KeepAlive", "runtime.GC", "runtime.Gosched", "runtime.SetFinalizer",
+		"runtime.KeepAlive", "runtime.GC", "runtime.Gosched", "runtime.SetFinalizer",
 		"internal/race.Acquire", "internal/race.Release", "internal/race.ReleaseMerge", "internal/race.Disable", "internal/race.Enable",
 		"internal/race.Read", "internal/race.Write", "internal/race.ReadRange", "internal/race.WriteRange"} {
 		externals[n] = nop
@@ -806,9 +806,36 @@ func init() {
 	externals["(*sync.Mutex).Unlock"] = unlock
 	externals["(*sync.RWMutex).Unlock"] = unlock
 	externals["(*sync.Mutex).TryLock"] = func(fr *frame, args []value) value { return true }
+	// sync.Pool: objects Put by code of the module under test are kept (in the `local` field) and a
+	// later Get by such code returns EITHER a kept object or a fresh New() one -- a solver-chosen
+	// alternative, because the real pool may do either at any time.  Pools used by the standard
+	// library stay "always fresh" (their users reset what they take).
+	externals["(*sync.Pool).Put"] = func(fr *frame, args []value) value {
+		p := args[0].(*value)
+		st := (*p).(structure)
+		if fr.caller == nil || !strings.HasPrefix(fnPkgPath(fr.caller.fn), elpsModule) {
+			return nil
+		}
+		if x, isI := args[1].(iface); isI && x.t == nil {
+			return nil
+		}
+		kept, _ := st[1].([]value)
+		nk := append(append([]value(nil), kept...), args[1])
+		fr.i.setCell(&st[1], nk)
+		return nil
+	}
 	externals["(*sync.Pool).Get"] = func(fr *frame, args []value) value {
 		p := args[0].(*value)
 		st := (*p).(structure)
+		if kept, _ := st[1].([]value); len(kept) > 0 && fr.i.path != nil {
+			in := fr.i
+			t := in.freshVar("syncpool.reuse", 8)
+			if in.decide(fr, in.pool.Eq(t, in.pool.Const(1, 8))) {
+				x := kept[len(kept)-1]
+				in.setCell(&st[1], append([]value(nil), kept[:len(kept)-1]...))
+				return x
+			}
+		}
 		// New is the last field
 		nf := st[len(st)-1]
 		switch f := nf.(type) {
